@@ -29,6 +29,7 @@
 From Coq Require Import String Ascii.
 From Coq Require Import List NArith ZArith Arith Lia.
 From Iodine Require Import Base Generated.SrcConsts Md5 Login LoginProofs LoginGlue LoginGlueProofs.
+From Iodine Require Server ServerFrame ServerAuthFinal.
 Import ListNotations.
 Local Open Scope N_scope.
 
@@ -124,6 +125,25 @@ Proof.
   split; [apply raw_client_accepts_down|apply raw_client_exact].
 Qed.
 Print Assumptions C19_raw_interop.
+
+(* the challenge the raw login is checked against IS the one of the version reply: in the server model a session's
+   challenge changes only when a version handshake claims the slot -- no login, option, ping, data, raw or tun step
+   touches it -- so "challenge+1 towards the server, challenge-1 back" refers to the value the client was given
+   (the SV cases of checks/c19.py run the real 'V' handler, the real login handler and then the real
+   handle_raw_login on one session) *)
+Theorem C19_challenge_survives_until_next_version : forall login zc unz c st e st' outs i,
+  Server.step login zc unz c st e = (st', outs) ->
+  (forall now rnd q, e = Server.EDns now rnd q -> Server.is_letter (Server.chr (Server.h_name q) 0) 118 = false) ->
+  Server.u_seed (Server.getu st' i) = Server.u_seed (Server.getu st i).
+Proof.
+  intros login zc unz c st e st' outs i Hs Hnv.
+  destruct (N.eq_dec (Server.u_seed (Server.getu st' i)) (Server.u_seed (Server.getu st i))) as [E|NE]; [exact E|].
+  exfalso.
+  destruct (ServerAuthFinal.final_claim_only login zc unz c st e st' outs i Hs (or_intror NE))
+    as (now & rnd & q & dl & He & _ & _ & Hv & _).
+  rewrite (Hnv now rnd q He) in Hv. discriminate Hv.
+Qed.
+Print Assumptions C19_challenge_survives_until_next_version.
 
 (* --- the glue between the server's version reply and the client's login ---------------------- *)
 (* for every C int the server may hold as challenge (all 2^32) and every userid the server can
